@@ -459,6 +459,15 @@ def judge_open(S, kind, spec, creds, res, pc):
             fails.append("outcome %s, wanted %s (%s)" % (res["outcome"], want_out, why))
         if got_log != want_log:
             fails.append("server log %r, wanted %r" % (got_log, want_log))
+        if region == "inside" and res["outcome"] == "ok":
+            # open() returns only when the device's prompt was seen: a line of what has been READ when the call returns
+            # looks like a device prompt (the documented default pattern of the style, S.REF_PROMPTS -- not the tree's)
+            # (lines as the login can have them in its buffer: the text read since the start or since one of its writes)
+            starts = [0] + [i + 1 for i, h in enumerate(res["hist"]) if h[0] == "w"]
+            texts = [b"".join(h[1] for h in res["hist"][i:] if h[0] == "r").lower() for i in starts]
+            if not any(pc.prompt.search(t) for t in texts):
+                fails.append("open() returned after reading %d bytes, none of their lines looks like a device prompt: "
+                             "the prompt was not seen" % len(texts[0]))
     return general, fails, region, hz
 
 
@@ -600,14 +609,15 @@ def report_login(cx, kind, stack, region, general, fails, scen, res, hz, label="
 
 
 def one_login(cx, suite, stack, kind, style, spec, pol, creds, timeout_ops=30.0, eof="raise", via_driver=None,
-              max_reads=5000, judge="login", heavy=False):
+              max_reads=5000, judge="login", heavy=False, private_key=False):
     """heavy: a long-dialogue run (window suite): it is handed to the Coq model only within the byte budget cx.wbudget
     (vm_compute of the derivative engine costs ~0.1 ms per buffer byte and read); over the budget the run is oracle-only"""
     S, rep = cx.S, cx.rep
     interval_ms = cx.intervals.setdefault(timeout_ops, interval_of(S, timeout_ops))
     depth = spec.get("search_depth")        # a non-default comms_prompt_search_depth (None: the default of the tree)
     if via_driver:
-        res = S.run_driver(stack, kind, spec, pol, creds, driver=via_driver, timeout_ops=timeout_ops, depth=depth)
+        res = S.run_driver(stack, kind, spec, pol, creds, driver=via_driver, timeout_ops=timeout_ops, depth=depth,
+                           private_key=private_key)
     else:
         res = S.run_login(stack, kind, spec, pol, creds, prompt=cx.prompt_text[style], timeout_ops=timeout_ops, eof=eof,
                           max_reads=max_reads, overrides={"comms_prompt_search_depth": depth} if depth else None)
@@ -621,6 +631,8 @@ def one_login(cx, suite, stack, kind, style, spec, pol, creds, timeout_ops=30.0,
     scen = {"suite": suite, "stack": stack, "kind": kind, "style": style, "spec": spec_json(spec), "policy": pol,
             "creds": {k: v.hex() for k, v in creds.items()}, "timeout_ops": timeout_ops, "eof": eof,
             "via_driver": via_driver, "max_reads": max_reads, "judge": judge}
+    if private_key:
+        scen["private_key"] = True       # the driver is given an auth_private_key (public-key login)
     cx.dist["runs"] += 1
     cx.count("by_suite", suite)
     cx.count("by_region", region)
@@ -980,6 +992,82 @@ def open_suite(cx, n_random):
                                       via_driver=drv, judge="open")
     cx.rep.sample({"open_scenario": "Driver.open(), system-style ssh, password configured, passphrase empty, server shows a passphrase prompt",
                    "oracle": "each prompt state only receives its own credential or an empty line"})
+
+
+KEY_FATAL = b"admin@sim: Permission denied (publickey)."
+SOFT_REJECTS = [b"Access denied", b"Sorry, try again.", b""]       # re-prompt lines that are not fatal ssh client messages
+
+
+def key_servers(rng):
+    """what an ssh server / client shows to a public-key login: (name, options of ssh_script)"""
+    ph = rng.choice(PHRASE_PROMPTS)
+    out = [("accepts-key", {"phrase_prompt": None, "key_accepted": True}),
+           ("rejects-key-asks-password", {"phrase_prompt": None, "pass_tries": 3}),
+           ("rejects-key-asks-password-soft", {"phrase_prompt": None, "pass_tries": rng.choice([3, 4]), "reject": rng.choice(SOFT_REJECTS)}),
+           ("rejects-key-asks-password-once", {"phrase_prompt": None, "pass_tries": rng.choice([1, 2]), "reject": rng.choice(SOFT_REJECTS)}),
+           ("fatal", {"fatal_start": KEY_FATAL}),
+           ("fatal", {"fatal_start": rng.choice(FATAL_TEXTS)}),
+           ("fatal-no-banner", {"fatal_start": rng.choice(FATAL_TEXTS), "banner": b""}),
+           ("asks-passphrase", {"phrase_prompt": ph, "empty_skips_key": True, "phrase_tries": 3}),
+           ("asks-passphrase", {"phrase_prompt": ph, "empty_skips_key": False, "phrase_tries": rng.choice([1, 2, 3]),
+                                "reject": rng.choice(SOFT_REJECTS)})]
+    return out
+
+
+def key_suite(cx, n_random):
+    """public-key logins over the system transport: the driver is given an auth_private_key and (a) nothing else,
+    (b) the key's passphrase, (c) a wrong passphrase, (d) a password as well; the server accepts the key, rejects it and
+    falls back to its password prompt (re-prompting with / without a fatal 'Permission denied' line, or hanging up), the
+    ssh client prints a fatal message, or asks for the passphrase of the key.  Through the real Driver / GenericDriver
+    .open() (sync; AsyncDriver has no transport that logs in over the channel: the AsyncChannel login with what a driver
+    hands it).  Oracle (judge_open): open() returns only when the device's prompt was seen, every prompt state receives its
+    own credential or an empty line, outcome and device-side log are those of a correct client -- a login that cannot
+    complete ends in ScrapliAuthenticationFailed AT OPEN"""
+    rng = cx.rep.rng
+    configs = [("key-only", b"", b""), ("key+passphrase", b"", CREDS["phrase"]), ("key+wrong-passphrase", b"", WRONG["phrase"]),
+               ("key+password", CREDS["pass"], b"")]
+    for ci, (cname, pw, phr) in enumerate(configs):
+        creds = {"user": CREDS["user"], "pass": pw, "phrase": phr}
+        for si, (sname, opt) in enumerate(key_servers(rng)):
+            spec = gen_spec(rng, "ssh", "driver", valid=True)
+            spec.update(opt)
+            total = sum(len(tx) for _, tx in cx.S.ideal(spec, creds, True)[2])
+            pols = [{"type": "whole"}] + [rng.choice(policies(rng, total, 2, 2, bytewise=True)[1:]) for _ in range(n_random)]
+            for pol in pols:
+                drv = "base" if (ci + si) % 2 == 0 else "generic"
+                one_login(cx, "key", "sync", "ssh", "generic" if drv == "generic" else "driver", spec, pol, creds,
+                          via_driver=drv, judge="open", private_key=True)
+                one_login(cx, "key", "async", "ssh", "driver", spec, pol, creds, judge="open")
+            cx.count("key_logins", cname + " / " + sname)
+    cx.rep.sample({"key_scenario": "Driver.open(), system transport, auth_private_key only; the server rejects the key and asks for a password",
+                   "oracle": "open() ends in ScrapliAuthenticationFailed after at most two (empty) submissions; it never returns before the device prompt"})
+
+
+def nlprompt_suite(cx, n):
+    """prompt spellings that END with a line end: 'Username:\\n', 'Password: \\r\\n' (accepted by the patterns: \\s?$ under
+    re.M) -- a device that leaves the cursor on the line after its prompt.  Telnet (login + password) and ssh (password),
+    channel login and driver.open(), valid and rejected credentials, every chunking kind."""
+    rng = cx.rep.rng
+    for i in range(n):
+        kind = "telnet" if i % 3 != 2 else "ssh"
+        style = rng.choice(["channel", "driver", "generic"])
+        valid = rng.random() < 0.7
+        spec = gen_spec(rng, kind, style, valid=valid)
+        which = rng.choice(["both", "both", "user", "pass"]) if kind == "telnet" else "pass"
+        if kind == "telnet" and which in ("both", "user"):
+            spec["user_prompt"] = rng.choice(USER_PROMPTS).rstrip(b" ") + rng.choice([b"", b" "]) + rng.choice([b"\n", b"\r\n"])
+        if which in ("both", "pass"):
+            spec["pass_prompt"] = rng.choice(PASS_PROMPTS).rstrip(b" ") + rng.choice([b"", b" "]) + rng.choice([b"\n", b"\r\n"])
+        if kind == "ssh":
+            spec["phrase_prompt"] = None
+        creds = dict(CREDS) if valid else dict(WRONG)
+        total = sum(len(tx) for _, tx in cx.S.ideal(spec, creds, kind == "ssh")[2])
+        via = None if style == "channel" or i % 2 else ("generic" if style == "generic" else "base")
+        for pol in policies(rng, total, 3, 2, bytewise=(i % 3 == 0)):
+            for stack in ("sync", "async"):
+                if via and kind == "ssh" and stack == "async":
+                    continue
+                one_login(cx, "nl-prompt", stack, kind, style, spec, pol, creds, via_driver=via)
 
 
 # credential VALUES.  str, as a user writes them into an inventory; the device must receive value.encode() (UTF-8: what
@@ -1405,7 +1493,8 @@ def replay_login(cx, sc):
     creds = {k: bytes.fromhex(v) for k, v in sc["creds"].items()}
     return one_login(cx, sc.get("suite", "replay"), sc["stack"], sc["kind"], sc["style"], spec, sc["policy"], creds,
                      timeout_ops=sc.get("timeout_ops", 30.0), eof=sc.get("eof", "raise"), via_driver=sc.get("via_driver"),
-                     max_reads=sc.get("max_reads", 5000), judge=sc.get("judge", "login"))
+                     max_reads=sc.get("max_reads", 5000), judge=sc.get("judge", "login"),
+                     private_key=bool(sc.get("private_key")))
 
 
 # ------------------------------------------------------------------------------------------------
@@ -1469,6 +1558,8 @@ def run(rep):
         kick_suite(cx, 500 if thorough else 100)
         driver_suite(cx, 40 if thorough else 10)
         open_suite(cx, 3 if thorough else 1)
+        key_suite(cx, 3 if thorough else 1)
+        nlprompt_suite(cx, 40 if thorough else 10)
         values_suite(cx, 150 if thorough else 36)
         history_suite(cx, 6 if thorough else 1, 6 if thorough else 4)
         events_suite(cx, 3000 if thorough else 500)
@@ -1505,7 +1596,8 @@ def run(rep):
                             if m.get("via_driver") and m["kind"] == "ssh" and stack == "async":
                                 continue
                             one_login(cx, "search", stack, m["kind"], m["style"], spec, pol, creds, timeout_ops=m.get("timeout_ops", 30.0),
-                                      eof=m.get("eof", "raise"), via_driver=m.get("via_driver"), max_reads=m.get("max_reads", 5000))
+                                      eof=m.get("eof", "raise"), via_driver=m.get("via_driver"), max_reads=m.get("max_reads", 5000),
+                                      judge=m.get("judge", "login"), private_key=bool(m.get("private_key")))
                     if rep.violations:
                         break
             if not rep.violations:
@@ -1517,6 +1609,8 @@ def run(rep):
                 kick_suite(cx, 80)
                 driver_suite(cx, 6)
                 open_suite(cx, 2)
+                key_suite(cx, 2)
+                nlprompt_suite(cx, 12)
                 values_suite(cx, 60, salt=1)
                 quiet_suite(cx, 20, salt=1)
                 history_suite(cx, 3, 5)
@@ -1532,7 +1626,10 @@ def run(rep):
                 "credentials; servers re-prompting forever or 3-4 times; passphrase, password, fatal ssh messages) x chunkings (whole, "
                 "1-byte, single cuts, random multi-cuts and size lists, empty reads) x sync/asyncio x three default prompt patterns; "
                 "hazard: lines whose prefix looks like a prompt; kick: empty reads with clock readings around k*interval, connection "
-                "errors, hang-ups, timeout_ops 30/10/60/0; driver: GenericDriver/Driver.open(); open: Driver / GenericDriver / "
+                "errors, hang-ups, timeout_ops 30/10/60/0; driver: GenericDriver/Driver.open(); key: Driver/GenericDriver.open() over "
+                "the system transport with auth_private_key + {nothing, passphrase, wrong passphrase, password} x server {accepts the "
+                "key, rejects it and asks for a password (fatal / soft re-prompt lines, 1-4 tries), fatal client message, passphrase "
+                "prompt} x chunkings (asyncio: the AsyncChannel login); nl-prompt: login / password prompts ending in LF / CRLF; open: Driver / GenericDriver / "
                 "AsyncDriver / AsyncGenericDriver.open() (telnet, system-style ssh; asyncio ssh: the AsyncChannel login) x all 8 "
                 "combinations of configured/empty user name, password, passphrase x dialogues asking for each of them (login+password, "
                 "password only, ssh password, passphrase with/without 'empty skips the key') x chunkings; values: the same open() "
@@ -1667,7 +1764,14 @@ MANIFEST = {
             "of harmless lines in front) that hold a line which is no prompt but "
             "ends like one ('<noc@example.com>', 'prices in US$', random tails of 1-40 prompt-class characters) at every offset "
             "relative to the last-depth-bytes window, with a read boundary at every position of the last 80 banner bytes and of "
-            "the first prompt (all of them in one run, and one at a time).",
+            "the first prompt (all of them in one run, and one at a time). Public-key logins (suite key): Driver / GenericDriver"
+            ".open() over the system transport with auth_private_key set and nothing else / the key's passphrase / a wrong "
+            "passphrase / a password as well, against a server that accepts the key, rejects it and falls back to its password "
+            "prompt (re-prompting with and without a fatal 'Permission denied' line, or hanging up), an ssh client that prints a "
+            "fatal message, or asks for the key's passphrase: outcome and device log of a correct client (a login that cannot "
+            "complete ends in ScrapliAuthenticationFailed AT OPEN, after at most two submissions) and 'open() returns only when a "
+            "line of what it has read looks like a device prompt'. Prompt spellings that end with a line end ('Username:\\n', "
+            "'Password: \\r\\n'; suite nl-prompt), telnet and ssh, channel login and open().",
     "note": "Section-variable style hypotheses (named in the theorems): empties (nothing matches the empty buffer: discharged for the "
             "patterns of the tree by C09_generated_empties), dlg_ok (no chunk-prefix of the dialogue provokes a reaction other than the "
             "one the server waits for: this is the region of the known partial-line finding), no_kick_sched (closed-loop theorems: the "
@@ -1679,7 +1783,12 @@ MANIFEST = {
             "the whole-open scenarios with empty credentials are covered by the oracles and by the correspondence with the model "
             "configured with the credentials the USER configured (a driver that hands over something else disagrees with it); "
             "there is no asyncio in-channel ssh transport, those scenarios call AsyncChannel.channel_authenticate_ssh as a driver "
-            "would. The credential-VALUE scenarios are covered the same way (oracle + correspondence with the model configured with "
+            "would. WHETHER open() runs the in-channel login at all (system transport: always unless auth_bypass, also when only "
+            "auth_private_key is configured) is likewise not modelled in Coq and not an obligation of gen_auth: the public-key "
+            "scenarios (suite key) are oracle-only on that point -- the model is run on the reads/writes of the login that took "
+            "place, and a login that was skipped shows up as an oracle failure (outcome / device log / prompt not seen) and as a "
+            "disagreement with the model; the identity file is never read (the scripted transport replaces ssh). "
+            "The credential-VALUE scenarios are covered the same way (oracle + correspondence with the model configured with "
             "the bytes the user configured; the str -> bytes encoding of Channel.write is not modelled in Coq, the model is handed "
             "the UTF-8 bytes); a value that contains a newline makes the line-based device react twice to one answer, which the "
             "closed-loop model (one phase per answer) does not cover: those runs are checked against the open-loop model (run_raw on "
